@@ -21,6 +21,7 @@ FUNS = {
     "mod3": (2, 1, "($0).rem_euclid(3)"),
     "decs": (3, 1, "($0 - 1).max(0)"),
     "max2": (4, 2, "($0).max($1)"),
+    "asi32": (5, 1, "($0 as i32)"),
 }
 PREDS = {
     "lt": (0, 2, "$0 < $1"),
@@ -52,6 +53,8 @@ def py_fun(name, a):
         return max(a[0] - 1, 0)
     if name == "max2":
         return max(a[0], a[1])
+    if name == "asi32":
+        return a[0]
     raise KeyError(name)
 
 
@@ -186,12 +189,16 @@ def rust_program_text(p, ty="i32"):
 # ------------------------------------------------------------------ FRONT dump -> core rules
 
 def _strip(s):
-    return re.sub(r"\s+", "", s)
+    """normalise token spacing: keep a single space only between two word characters"""
+    s = re.sub(r"\s+", " ", s.strip())
+    return re.sub(r"(?<![A-Za-z0-9_]) | (?![A-Za-z0-9_])", "", s)
 
 
 def _tmpl_regex(tmpl):
-    s = re.escape(_strip(tmpl))
-    # a template argument: optional deref + identifier; the same $i may occur several times
+    t = tmpl
+    for i in range(4):
+        t = t.replace("$%d" % i, "ARG%dQ" % i)
+    s = re.escape(_strip(t)).replace("\\ ", " ?")
     seen = {}
 
     def rep(m):
@@ -200,7 +207,7 @@ def _tmpl_regex(tmpl):
             return r"\*?(?P=a%s)" % i
         seen[i] = True
         return r"\*?(?P<a%s>[A-Za-z_]\w*)" % i
-    s = re.sub(r"\\\$(\d)", rep, s)
+    s = re.sub(r"ARG(\d)Q", rep, s)
     return re.compile("^" + s + "$")
 
 
